@@ -57,7 +57,10 @@ class _BatchBase(Contract):
         return ev, post
 
     def x_any(self, E, old, st, a, exc):
-        return [("only the remote request can fail", z3.BoolVal(len(self.sent(st)) == 0 and "invoke_batch" in str(st.get(exc, "__cls__").term)))]
+        q = st.get(self.bp, "_BatchProxy__calls")
+        return [("only the remote request can fail", z3.BoolVal(len(self.sent(st)) == 0 and "invoke_batch" in str(st.get(exc, "__cls__").term))),
+                ("a failed submit leaves an empty queue too: part of the batch may have run already, the next submit must not repeat it",
+                 z3.BoolVal(isinstance(q, VList) and not q.items))]
 
 
 @R.contract
